@@ -469,4 +469,6 @@ def rule_call_layer(ctx):
     rules_bodies.rule_read_forwarding(ctx)
 
 
-RULES = [rule_transitions, rule_data_bounds, rule_predicates, rule_size_line, rule_crlf_finder, rule_outer_loop, rule_call_layer]
+from .rules_wrappers import rules_for as _rules_for
+_fw_C07 = _rules_for("C07")
+RULES = [rule_transitions, rule_data_bounds, rule_predicates, rule_size_line, rule_crlf_finder, rule_outer_loop, rule_call_layer, _fw_C07]
